@@ -320,6 +320,8 @@ impl Prop for C02 {
         let n = tier.pick(14, 60);
         prop_oneof![
             12 => direct_strategy(n).prop_map(C02Case::Direct),
+            // large networks (up to 400 / 1500 vertices): long optimal routes, large trees
+            1 => prop_oneof![19 => direct_strategy(n), 1 => direct_strategy(tier.pick(400, 1500))].prop_map(C02Case::Direct),
             1 => app_strategy(n.min(20)).prop_map(C02Case::App),
         ]
         .boxed()
